@@ -2,6 +2,7 @@ package worker
 
 import (
 	"fmt"
+	"os"
 	"sort"
 	"testing"
 	"testing/synctest"
@@ -86,6 +87,13 @@ func runC05(t *testing.T, r *engine.Run) {
 		inst := insts[tp.Choose(len(insts), "reconnInst")]
 		permute := tp.Bool(1, 3, "permuteDeps")
 		c.presentNonce = c.delta && tp.Bool(1, 3, "presentNonce")
+		c.lateRoots = permute && tp.Bool(1, 2, "lateRoots")
+		if os.Getenv("VERIF_DEBUG_NOLATE") != "" {
+			c.lateRoots = false
+		}
+		if os.Getenv("VERIF_DEBUG_NONONCE") != "" {
+			c.presentNonce = false
+		}
 		r.Logf("%s reconnects to %s (stream #%d, deps first=%v, old nonce presented=%v) retaining %d types", c.name, inst.name, c.streams+1, permute, c.presentNonce || !c.delta, len(c.sub))
 		r.Fault("client_reconnect")
 		w.connect(c, inst, permute)
@@ -236,8 +244,20 @@ func runC05(t *testing.T, r *engine.Run) {
 			if d[0].field != "" {
 				key += ":" + d[0].field
 			}
-			for _, l := range c.sentLog[max(0, len(c.sentLog)-8):] {
+			tail := 8
+			if os.Getenv("VERIF_DEBUG_LOGS") != "" {
+				tail = 40
+			}
+			for _, l := range c.sentLog[max(0, len(c.sentLog)-tail):] {
 				r.Logf("  %s sent: %s", c.name, l)
+			}
+			for i := max(0, len(c.recvLog)-tail); i < len(c.recvLog); i++ {
+				e := c.recvLog[i]
+				r.Logf("  %s recv[%d] step=%d %s names=%v removed=%v", c.name, i, e.step, shortType(e.typeURL), e.names, e.removed)
+			}
+			if os.Getenv("VERIF_DEBUG_LOGS") != "" {
+				rec, ok := serverRecord(c.inst, c, "type.googleapis.com/envoy.config.cluster.v3.Cluster")
+				r.Logf("  debug: server record of %s for %s (exists=%v): %v", d[0].typ, c.name, ok, rec)
 			}
 			r.Fail("c05.not_resynchronised", key, "after reconnects: client %s (delta=%v, %d streams) differs from a fresh control plane:%s", c.name, c.delta, c.streams, fmtDiffs(d))
 			return
